@@ -57,16 +57,18 @@ viewv == <<st, fl, retx, bk, got, est, tick, owe, net, drops, dups, touts, emits
 PutK(n, k) == [n EXCEPT ![k].n = IF n[k].n + n[k].d < Cap THEN @ + 1 ELSE @]
 RECURSIVE PutAll(_, _)
 PutAll(n, ks) == IF ks = <<>> THEN n ELSE PutAll(PutK(n, Head(ks)), Tail(ks))
-Take(n, k, c) == IF c = "n" THEN [n EXCEPT ![k].n = @ - 1] ELSE [n EXCEPT ![k].d = @ - 1, ![k].s = @ + 1]
-Has(k, c) == IF c = "n" THEN net[k].n > 0 ELSE net[k].d > 0
+Take(n, k, c) == CASE c = "n" -> [n EXCEPT ![k].n = @ - 1] [] c = "d" -> [n EXCEPT ![k].d = @ - 1, ![k].s = @ + 1]
+                   [] OTHER -> [n EXCEPT ![k].s = @ - 1]
+Has(k, c) == CASE c = "n" -> net[k].n > 0 [] c = "d" -> net[k].d > 0 [] OTHER -> net[k].s > 0
 Bump(b) == IF b < BackoffCap THEN b + 1 ELSE b
 
 \* the acknowledgement the client would send now (nothing when it owes none)
 AckOf(o) == IF o = {} THEN <<>> ELSE IF "T" \in o THEN <<"AcT">> ELSE <<"Ac4">>
 
 \* reaction of endpoint e to datagram kind k: [fl, st, retx, bk, est, tick, owe, out]
-React(e, k) ==
+ReactG(e, k, stale) ==
   LET new == k \notin got[e]
+      f4 == IF stale THEN {} ELSE {"F4"}     \* a stale twin's protected records never reach the list of records to acknowledge
       bk0 == IF new THEN 0 ELSE bk[e]          \* interval reset on non-retransmitted input
       same == [fl |-> fl[e], st |-> st[e], retx |-> retx[e], bk |-> bk0, est |-> est[e], tick |-> tick, owe |-> owe, out |-> <<>>]
   IN
@@ -96,7 +98,7 @@ React(e, k) ==
   ELSE
     CASE st["c"] = "Finished" ->
            IF k = "T" THEN [same EXCEPT !.owe = {}, !.out = <<"AcT">>]
-           ELSE IF k = "F4" THEN [same EXCEPT !.owe = {}, !.out = AckOf(owe \cup {"F4"})]
+           ELSE IF k = "F4" THEN [same EXCEPT !.owe = {}, !.out = AckOf(owe \cup f4)]
            ELSE same                               \* an old cleartext HelloRetryRequest wakes nothing any more
       [] fl["c"] = "F1" ->
            IF k = "F2" THEN [same EXCEPT !.fl = "F3", !.retx = TRUE, !.out = <<"F3">>]
@@ -113,13 +115,20 @@ React(e, k) ==
            IF k = "As" THEN [same EXCEPT !.st = "Finished", !.est = TRUE, !.retx = FALSE, !.owe = {}]
            ELSE IF k = "T" THEN [same EXCEPT !.st = "Finished", !.est = TRUE, !.retx = FALSE, !.owe = {}]   \* implicit acknowledgement
            \* a duplicate of the peer's previous flight: acknowledge what is owed, send the final flight again
-           ELSE IF k = "F4" /\ ~new THEN [same EXCEPT !.bk = Bump(bk0), !.owe = {}, !.out = AckOf(owe \cup {"F4"}) \o <<"F5">>]
+           ELSE IF k = "F4" /\ ~new THEN [same EXCEPT !.bk = Bump(bk0), !.owe = {}, !.out = AckOf(owe \cup f4) \o <<"F5">>]
            ELSE IF k = "F2" /\ ~new THEN [same EXCEPT !.bk = Bump(bk0), !.owe = {}, !.out = AckOf(owe) \o <<"F5">>]
            ELSE same
       [] OTHER -> same
 
+React(e, k) == ReactG(e, k, FALSE)
+\* datagrams with a cleartext (epoch 0) handshake record: ClientHello, HelloRetryRequest, and the ServerHello at the head of
+\* flight 4.  Epoch-0 records are not subject to the anti-replay window (the "fix:" commit that stops a forged cleartext
+\* record from moving it): the second copy of a duplicated datagram is processed again as a retransmission, its protected
+\* records are dropped.
+ClearHS(k) == k \in {"F1", "F2", "F3", "F4"}
+
 Deliver(k, c) ==
-  LET e == Peer(Sender(k)) r == React(e, k) IN
+  LET e == Peer(Sender(k)) r == ReactG(e, k, c = "s") IN
   /\ Has(k, c)
   /\ got' = [got EXCEPT ![e] = @ \cup {k}]
   /\ fl' = [fl EXCEPT ![e] = r.fl] /\ st' = [st EXCEPT ![e] = r.st] /\ retx' = [retx EXCEPT ![e] = r.retx]
@@ -129,10 +138,11 @@ Deliver(k, c) ==
   /\ UNCHANGED <<drops, dups, touts>>
 
 DeliverStale(k) ==
-  /\ net[k].s > 0
-  /\ net' = [net EXCEPT ![k].s = @ - 1]
-  /\ emits' = <<>> /\ cause' = "none"
-  /\ UNCHANGED <<st, fl, retx, bk, got, est, tick, owe, drops, dups, touts>>
+  IF ClearHS(k) THEN Deliver(k, "s")
+  ELSE /\ net[k].s > 0
+       /\ net' = [net EXCEPT ![k].s = @ - 1]
+       /\ emits' = <<>> /\ cause' = "none"
+       /\ UNCHANGED <<st, fl, retx, bk, got, est, tick, owe, drops, dups, touts>>
 
 Drop(k, c) ==
   /\ drops < MaxDrop
